@@ -1,0 +1,11 @@
+//go:build !verif
+// +build !verif
+
+package sftp
+
+// Simulation hooks (see verif_on.go). Without the "verif" build tag they are
+// empty and are inlined away.
+
+func simYield(site string, key uint64) {}
+
+func (f *File) simLock(method uint64, write bool) {}
